@@ -1,6 +1,13 @@
 import json,sys
 claimed = {
- "C16": ("fault_enumeration","Enumerates, per sampled case, every byte offset of the input as a failing read and every byte offset of the fault-free stdout/stderr as a failing write (sticky and recovering devices, after seeded EINTR/short-transfer garnish), and compares each faulted run of the real jawk::go with the fault-free run of the same code. Offsets are enumerated, cases are sampled: a clean run is evidence over the sampled cases, not a proof.","4 C16","deterministic simulation: byte-offset fault enumeration at the stdin/stdout/stderr seams vs fault-free reference run"),
+ "C05": ("exploration","Seeded exploration of hostile byte streams arriving through the stdin seam (corruption operators incl. truncation = producer crash, random alphabet strings, deep nesting, invalid UTF-8) under seeded delivery plans, and of an ill-typed expression corpus derived from the function table scraped from the working tree; decides 'no panic, no abort, returns within a budget counted in seam events'. The batch runs in a supervised child process so that an abort is reported and replayable. The stream half is the part simulation decides; the expression half reaches only as far as the corpus (stated in evidence). Sampling, not proof.","4 C05","deterministic simulation: seeded stream corruption/truncation + ill-typed expression corpus through the stdin seam; panic/abort/liveness oracle"),
+ "C06": ("exploration","Seeded exploration of garbage regions injected into the gaps of generated streams under the four --on-error policies and seeded delivery plans; every claim is decided against executions of the same build on the garbage-free stream and on clean prefixes, with region reachability and sink routing read off the seam event history.","4 C06","deterministic simulation: garbage injection between records vs reference runs on the clean stream; sink routing from the seam event log"),
+ "C10": ("exploration","Seeded exploration of an at-least-once upstream: harness-injected redeliveries in fresh value-preserving spellings, several hasher seeds via hook H1; decided against the run without --unique on the sub-stream of first deliveries and against `=` on harness-known pairs. Weak fit for the technique (record-level events), stated in DESIGN.md.","4 C10","deterministic simulation: harness-injected redelivery with re-encoding + seeded hasher vs reference run on first deliveries"),
+ "C11": ("exploration","Seeded exploration of record-level transport events (consumer restart at a record boundary, redelivery, reordering, re-spelling) over stateless pipelines; decided against per-record solo runs and the uninterrupted run of the same build, byte for byte. Weak fit for the technique, stated in DESIGN.md.","4 C11","deterministic simulation: restart/redelivery/reordering of records vs per-record reference runs"),
+ "C14": ("exploration","Seeded exploration with an endless stdin produced on demand by the stub (finite generated prefix + unbounded tail of distinct records), raw or through a harness BufReader with chunking/EINTR; the byte offset at which the finite reference run wrote its last row bounds what the endless run may consume (read off jawk's side of the seam), and the simulator aborts a run that keeps reading.","4 C14","deterministic simulation: endless input source with byte budget; consumption at the stdin seam vs finite reference run"),
+ "C16": ("fault_enumeration","Enumerates, per sampled case, every byte offset of the input as a failing read and every byte offset of the fault-free stdout/stderr as a failing write (sticky and recovering devices, after seeded EINTR/short-transfer garnish, plus Ok(0) writes and double faults), and compares each faulted run of the real jawk::go with the fault-free run of the same code. Offsets are enumerated, cases are sampled: a clean run is evidence over the sampled cases, not a proof.","4 C16","deterministic simulation: byte-offset fault enumeration at the stdin/stdout/stderr seams vs fault-free reference run"),
+ "C17": ("exploration","Seeded exploration of delivery schedules of the same bytes (whole slice, raw 1-byte reads with EINTR, BufReader of seeded capacity over seeded chunk limits, one real file, partitions into 1..4 real files at gaps and inside values) compared byte for byte between executions of the same build, and of the seven input-context selectors against the byte offsets the harness knows for the records it generated.","4 C17","deterministic simulation: delivery-schedule and file-partition equivalence; input-context selectors vs harness-known byte offsets"),
+ "C18": ("exploration","Seeded exploration of single corruptions that are invalid by construction applied to valid generated configurations, in friendly and hostile worlds; decided on the recorded seam history, which must be empty when the configuration error is returned.","4 C18","deterministic simulation: effect order at the seams (empty event history) under config corruption, friendly and hostile stubs"),
 }
 na = {
  "C01":"pure function of the input bytes (value-for-value fidelity of parse+print); no delivery, fault, schedule or history in the statement; deciding it needs an independent JSON reader as oracle, which is differential/property testing, not simulation. Chunking of the same bytes is covered by C17.",
